@@ -317,6 +317,12 @@ def run(repo, rep):
     c01.guard_rules(repo, rep)
     c02.guard_rules(repo, rep)
     alg.reset()
+    # ... and the projection formulas themselves in both directions (series, Newton iteration with its derivative): the grid routines
+    # convert every point with them
+    c01.formula_rules(repo, rep)
+    alg.reset()
+    c02.formula_rules(repo, rep)
+    alg.reset()
     common.typecheck_rules(repo, rep)
     common.state_rule(repo, rep, [('geodepy.geodesy', 'vincdir_utm'), ('geodepy.geodesy', 'vincinv_utm'), ('geodepy.geodesy', 'line_sf')])
     rep.trust('opaque call atoms carry every formal parameter of the callee (defaults explicit); sv/alg.py normal forms')
